@@ -12,11 +12,11 @@ CHECKS = {
     "C02": ("other", "Proved on the AST: every dispatch-chain element on the solve path accepts the arguments it is called with (no TypeError instead of Z3 fallback). Bounded: exceptions escaping solve() and stickiness of StopIteration/TimeoutError over call histories.", NOTE_MIX, MIX, "6/C02"),
     "C03": ("other", "Proved: trie key encoding/decoding incl. round-trip and prefix lemmas, Kleene all/any, call shape of the evaluator chains. Bounded: evaluate()/check() == independent reference semantics on enumerated closed trees (both strategies reached).", NOTE_MIX, MIX, "6/C03"),
     "C04": ("other", "Proved for all paths: before/after/inside/direct_child/same_position/different_position against the document-order definition, plus lemmas that the definition is a strict order total on prefix-incomparable nodes. nth/consecutive/level: bounded exhaustive small-scope check against independent definitions, not proved.", NOTE_MIX, MIX, "6/C04"),
-    "C05": ("other", "Proved: 17 fast-path constructors (not/and/or/=/</<=/>/>=/-/mod/str.len/str.++/str.at/str.substr/str.to_code) equal the solver's own operators and never raise; call shape of the evaluator chain. Bounded: regex constructors, div/pow/str.to.int, is_valid and evaluate end-to-end against Z3.", NOTE_MIX, MIX, "6/C05"),
+    "C05": ("other", "Proved: 17 fast-path constructors (not/and/or/=/</<=/>/>=/-/mod/str.len/str.++/str.at/str.substr/str.to_code) equal the solver's own operators and never raise; operator binding: each of the 36 case functions of the dispatch chain answers only (for 31 of them: exactly) for the z3 head symbol its constructor was verified against, from the real guard text over an assumed model of z3's term inspection; call shape of the evaluator chain. Bounded: regex constructors, div/pow/str.to.int, is_valid and evaluate end-to-end against Z3.", NOTE_MIX, MIX, "6/C05"),
     "C06": ("other", "Proved: all ThreeValuedTruth operations equal their Kleene tables and are monotone in the information order, for sequences of any length. Bounded: verdicts on every open prefix of enumerated closed trees never contradict the completion.", NOTE_MIX, MIX, "6/C06"),
     "C07": ("exploration", "Bounded only: unparse/parse fix-point, equality and equal verdicts over a generated constraint family.", NOTE_BND, BND, "6/C07"),
     "C08": ("other", "Bounded: sugared constraints vs an independently written desugaring, on enumerated trees. Proved (supporting): list_set, nth_occ, is_prefix used by XPath elimination.", NOTE_MIX, MIX, "6/C08"),
-    "C09": ("other", "Bounded: rewrites (negation, NNF, DNF, renaming, and/or) on generated n-ary ASTs keep/invert the verdict and never raise. Proved (supporting): call shape of the NNF chain, three-valued De Morgan.", NOTE_MIX, MIX, "6/C09"),
+    "C09": ("other", "Proved for all formulas and all assignments, over an abstract semantics of formula ASTs: Formula.__and__/__or__/__neg__ mean conjunction/disjunction/negation (n-ary, by fold invariants); six of the seven case functions of convert_to_nnf answer exactly for their formula classes and their answer means the formula (negated iff `negate`), with the dispatch chain as assumed induction hypothesis and a lemma that some case always answers. Bounded: negation, NNF, DNF, renaming, and/or on generated n-ary ASTs keep/invert the verdict and never raise (incl. the SMT-level case and DNF, which are not proved).", NOTE_MIX, MIX, "6/C09"),
     "C10": ("exploration", "Bounded, exhaustive per bound: EarleyParser vs an independent recogniser on all strings up to a length over fixed and random grammars.", NOTE_BND, BND, "6/C10"),
     "C11": ("exploration", "Bounded: per-character escape table exhaustive on 0..0x24F, string and grammar round trips on critical alphabets.", NOTE_BND, BND, "6/C11"),
     "C12": ("other", "Bounded: post-conditions of expand_tree / mutate over seeds and a choice oracle. Proved (supporting): parent_or_child.", NOTE_MIX, MIX, "6/C12"),
